@@ -41,7 +41,7 @@ def run(ctx):
             for _, t in fn.calls():
                 if t.callee.is_("watchexec_supervisor::job::task::start_job", "job::task::start_job"):
                     callers.append(fn)
-        ctx.floor("R08.1", "start_job call sites in the lib", len(callers), 2)
+        ctx.floor("R08.1", "start_job call sites in the lib", len(callers), 1)
         for fn in callers:
             ok = fn.def_ in ("watchexec::action::handler::Handler::create_job", "watchexec::action::handler::Handler::create_job_with_id")
             ctx.require(ok, "R08.1", "start_job-caller:" + fn.def_, "start_job is only called from Handler::create_job*", fn.loc(fn.line),
